@@ -47,7 +47,7 @@ def run(p: Program, rep: Report, tier: str) -> None:
             # a blocking put does not raise (that it may block forever is R6.3's subject); a timed / non-blocking one raises Full
             timed = callee[2] == "put_nowait" or (isinstance(node, ast.Call) and (len(node.args) > 1 or any(k.arg in ("timeout", "block") for k in node.keywords)))
             return ["queue.Full"] if timed else []
-        if callee[0] == "attr" and callee[2] in ("cancel", "done", "empty", "get_nowait", "exception"):
+        if callee[0] == "attr" and callee[2] in ("cancel", "done", "empty", "get_nowait", "exception", "set", "is_set"):
             return []  # queue/future bookkeeping: does not raise in this model
         if callee[0] == "attr" and callee[2] == "get":
             return ["queue.Empty"]
@@ -295,7 +295,9 @@ def run(p: Program, rep: Report, tier: str) -> None:
     # ---------------------------------------------------------------- R6.5 - R6.7 shared streaming rules
     from .stream_common import closed_flag_provenance, relay_put_never_drops, send_failures_propagate
 
-    for rule, fnc, least in (("R6.5", send_failures_propagate, 10), ("R6.6", closed_flag_provenance, 2), ("R6.7", relay_put_never_drops, 2)):
+    from .c11 import denial_receive_rule  # the receive channel a streaming denial response runs under (websocket.disconnect -> http.disconnect)
+
+    for rule, fnc, least in (("R6.5", send_failures_propagate, 10), ("R6.6", closed_flag_provenance, 2), ("R6.7", relay_put_never_drops, 2), ("R6.8", denial_receive_rule, 1)):
         for kind, fn_, node, cons, msg in fnc(p):
             if kind == "ok":
                 rep.analysed(fn_.fq)
